@@ -4,17 +4,17 @@ package main
 // behaviours are turned into these by checks/c03.py.
 
 type SymCase struct {
-	K    string  `json:"k"` // "s" scalar, "v" vector
-	Arch string  `json:"arch"`
-	F    string  `json:"f"`
-	Op   int     `json:"op"`
-	S0   any     `json:"s0"`
-	S1   any     `json:"s1"`
-	S2   any     `json:"s2"`
-	DPre any     `json:"dpre"`
-	SCC  int     `json:"scc"`
-	Exec []int   `json:"exec"`
-	Vcc  []int   `json:"vcc"`
+	K    string `json:"k"` // "s" scalar, "v" vector
+	Arch string `json:"arch"`
+	F    string `json:"f"`
+	Op   int    `json:"op"`
+	S0   any    `json:"s0"`
+	S1   any    `json:"s1"`
+	S2   any    `json:"s2"`
+	DPre any    `json:"dpre"`
+	SCC  int    `json:"scc"`
+	Exec []int  `json:"exec"`
+	Vcc  []int  `json:"vcc"`
 }
 
 func toInts(x any) []int {
